@@ -45,6 +45,7 @@ _BASE = {
     "OSet": T.OSET,
     "RKey": T.RKEY,
     "JRep": T.JREP,
+    "Handle": T.HANDLE,
 }
 
 
@@ -136,6 +137,7 @@ class Contract:
         self.modifies = []  # (objexpr, [fields])
         self.raises = []  # Raises
         self.modifies_where = []
+        self.modifies_fs = False
         self.allocates_when = {}
         self.invariants = {}  # loop id -> [(name, expr)]
         self.ghost_sets = []  # (objexpr, field, expr)
@@ -198,6 +200,8 @@ class Contract:
                     self.internal.add(nm)  # a stepping stone of this unit's proof: not exported to callers
             elif fn == "modifies":
                 self.modifies.append((a[0], [x.value for x in a[1:]]))
+            elif fn == "modifies_fs":
+                self.modifies_fs = True      # the ghost file system (fs_get) may change
             elif fn == "modifies_where":
                 # modifies_where(lambda x: cond(x), "Class", "field", ...): the fields of every object of the class
                 # that satisfies cond in the pre-state may change (a set of objects, not one)
